@@ -662,7 +662,7 @@ static Sh SHV(Index r, Index c) { Sh s; s.rows = r; s.cols = c; return s; }     
 static Sh SHN(Index r, Index c) { Sh s; s.rows = r; s.cols = c; g_unch = 0; return s; }          /* freshly defined object */
 static Sh SH_DIMS(Index r, Index c) { EIG_ASSERT(0 <= r && 0 <= c, "Eigen: matrix dims >= 0"); return SHN(r, c); }
 #define SH_SET(L, r, c) do { const Index verif_r = (r), verif_c = (c); (L).rows = verif_r; (L).cols = verif_c; g_unch = 0; } while (0)
-#define SH_TOUCH(L) do { (void)&(L); g_unch = 0; } while (0)
+#define SH_TOUCH(L) do { g_unch = 0; } while (0)
 #define SH_COLWRITE(L) do { if ((const void *)&(L) != g_cc_block) g_unch = 0; } while (0)
 #define SH_RESIZE(L, r, c) do { EIG_ASSERT(0 <= (r) && 0 <= (c), "Eigen: matrix dims >= 0"); (L).rows = (r); (L).cols = (c); if ((const void *)&(L) != g_cc_block) g_unch = 0; } while (0)
 static Index ND_DIM(void) { Index n = nondet_Index(); __CPROVER_assume(0 <= n && n <= NMAX); return n; }
@@ -1118,12 +1118,11 @@ def compute_spec(P, variant):
                       ("eigenvectors() is n x k", "eigenvectors(self).rows == self->m_n && eigenvectors(self).cols == self->m_nev")],
     }[variant]
     return FSpec("compute", "void", [("LOB *", "self"), ("int", "maxit"), ("Scalar", "tol_div_n")],
-                 pre=[(INV_DOC, INV), ("iteration limit is a machine integer away from overflow", "-NMAX <= maxit && maxit <= NMAX"),
-                      ("ghost arrays", "VEC_SIZE(g_cnorm) >= self->m_nev && VEC_SIZE(g_pos) >= self->m_nev")],
+                 pre=[(INV_DOC, INV), ("iteration limit is a machine integer away from overflow", "-NMAX <= maxit && maxit <= NMAX")],
                  post=post,
                  exc_post=[("an exception leaves the object inside its invariant", INV)] if variant == "shapes" else [],
                  frame=["self->X", "self->m_residuals", "self->m_evectors", "self->m_evalues", "self->m_info", "g_unch", "g_cc_block", "g_last_bs", "g_cc_ret", "g_orth_first", "g_p"],
-                 frame_objs=["g_cnorm", "g_pos"], may_throw=[1, 2], real=HDR + ":compute")
+                 may_throw=[1, 2], real=HDR + ":compute")
 
 
 def f_compute(P):
@@ -1172,7 +1171,7 @@ def f_compute(P):
             raise X.ExtractionBreak("compute: local matrix %s (named by the loop invariant) not declared before the loop" % n_)
     nk = lambda s: "%s.rows == self->m_n && %s.cols == self->m_nev" % (s, s)
     inv = ("__CPROVER_assigns(%s, BlockSize, %s, %s.size, __CPROVER_object_whole(%s.data), self->X, self->m_residuals, self->m_evectors, self->m_evalues, self->m_info, verif_exc, "
-           "g_unch, g_cc_block, g_last_bs, g_cc_ret, g_orth_first, g_p, __CPROVER_object_whole(g_cnorm), __CPROVER_object_whole(g_pos)) " % (IT, ", ".join(locs), V, V) +
+           "g_unch, g_cc_block, g_last_bs, g_cc_ret, g_orth_first, g_p) " % (IT, ", ".join(locs), V, V) +
            "__CPROVER_loop_invariant(0 <= %s && (%s <= %s || %s == 0) && verif_exc == 0 && " % (IT, IT, MAXIT, IT) +
            "%s && %s && %s && self->m_evalues.rows == self->m_nev && self->m_evalues.cols == 1 && " % (nk("self->X"), nk("AX"), nk("BX")) +
            "(%s == 0 || (%s && %s && %s)) && " % (IT, nk("directions"), nk("AD"), nk("BD")) +
@@ -1190,15 +1189,21 @@ def f_compute(P):
     specs = {v: compute_spec(P, v) for v in ("shapes", "inner_ctor", "status", "accessors")}
     t = P.emit(f, "compute", specs["shapes"], finfo=fi, pre_rules=pre_rules, loop_contracts={0: inv, 1: fill, 2: fill},
                maythrow=["geigs_ctor", "geigs_compute"], decomps={G: "geigs"}, extra_scalars=["Aop_n", "Bop_n", V])
-    setup = (P.alloc + "  __CPROVER_assume(1 <= self->m_nev && self->m_nev <= NMAX);\n  g_cnorm = VEC_NEW(self->m_nev); g_pos = IVEC_NEW(self->m_nev);\n"
-             "  int maxit = nondet_int(); Scalar tol_div_n = nondet_Scalar();\n")
+    setup = P.alloc + "  int maxit = nondet_int(); Scalar tol_div_n = nondet_Scalar();\n"
     harn = {v: s.harness("h", setup, "self, maxit, tol_div_n") for v, s in specs.items()}
     return GEIGS_DEFS, t, specs, harn
 
 
 def stub_text(spec):
-    """Call-site stub; its precondition assertions are Eigen-level obligations of the caller (switched off in the secondary groups, which re-use the same text)."""
-    return spec.stub().replace("  __CPROVER_assert(", "  EIG_ASSERT(")
+    """Call-site stub; its precondition assertions are Eigen-level obligations of the caller (switched off in the secondary groups, which re-use the same text).
+    Clauses about the ghost arrays g_cnorm / g_pos (which column norms justified a push) are not needed by any caller: the stub used for compute() is the
+    contract WITHOUT them (a weaker contract: fewer assumptions, the arrays are not touched)."""
+    sp = copy.copy(spec)
+    ghost = lambda e: "g_cnorm" in e or "g_pos" in e
+    sp.pre = [c for c in spec.pre if not ghost(c[1])]
+    sp.post = [c for c in spec.post if not ghost(c[1])]
+    sp.frame_objs = [o for o in spec.frame_objs if not ghost(o)]
+    return sp.stub().replace("  __CPROVER_assert(", "  EIG_ASSERT(")
 
 
 # --------------------------------------------------------------------------- accessors, constructor, setters
@@ -1267,6 +1272,42 @@ def f_ctor_setters(P):
 
 # =========================================================================== groups
 
+class TracedGroup(Group):
+    """A group whose single cbmc run also produces the counterexample traces (--trace): the runner then does not re-run cbmc once per failed obligation
+    (symbolic execution of the dfcc-instrumented compute() takes about 40 s each time).  The pipeline itself is the runner's (same wrapping, cache, accounting)."""
+
+    def run_custom(self, prop, wdir):
+        from vlib import runner
+        inner = Group.__new__(Group)
+        inner.__dict__.update(self.__dict__)
+        inner.extra_cbmc = list(self.extra_cbmc) + ["--trace"]
+        runner.run_group(inner, prop)
+        return inner.result
+
+
+def stored_trace(prop, g, o, keep=80):
+    """Counterexample assignments of one failed obligation, from the cbmc.json of the group's run."""
+    import json
+    from vlib.runner import WORK
+    path = os.path.join(WORK, prop, re.sub(r"[^\w.-]", "_", g.name), "cbmc.json")
+    out = []
+    try:
+        for item in json.load(open(path)):
+            for r in item.get("result", []):
+                if r.get("property") != o["id"]:
+                    continue
+                for st in r.get("trace", []):
+                    if st.get("stepType") != "assignment" or st.get("hidden"):
+                        continue
+                    fn = st.get("sourceLocation", {}).get("function")
+                    lhs = st.get("lhs") or ""
+                    if fn in ("compute", "h") and not lhs.startswith("__") and "write_set" not in lhs and "$" not in lhs:
+                        v = st.get("value", {})
+                        out.append({"lhs": lhs, "value": v.get("data", v.get("name")), "line": st.get("sourceLocation", {}).get("line"), "function": fn})
+    except (OSError, ValueError):
+        pass
+    return out[-keep:]
+
 ASSUMPTIONS = [
     "floating-point VALUES of every Eigen expression are dropped (nondeterministic): shapes, index expressions, ints, flags, status and control flow are kept; sqrt of a dropped value is a dropped value",
     "Eigen product / sum / block / coefficient semantics: the assertions generated by the shape evaluator are Eigen's own (eigen_assert) conditions; Matrix(expr), sparseView(), real(), cast<>(), cwiseSqrt() keep the shape; "
@@ -1302,9 +1343,9 @@ def build(tier):
     P = Pack(report)
     groups = []
 
-    def G(name, text, enforce, fns, expect=(), timeout=300, note="", defines=()):
-        groups.append(Group("lobpcg." + name, text, "h", enforce=enforce, solver="cadical", defines=["SCALAR_DOUBLE"] + list(defines), timeout=timeout,
-                            functions=fns, expect_classes=list(expect) or ["assigns"], note=note))
+    def G(name, text, enforce, fns, expect=(), timeout=300, note="", defines=(), traced=False):
+        groups.append((TracedGroup if traced else Group)("lobpcg." + name, text, "h", enforce=enforce, solver="cadical", defines=["SCALAR_DOUBLE"] + list(defines), timeout=timeout,
+                                                         functions=fns, expect_classes=list(expect) or ["assigns"], note=note))
 
     specs = {}
     for nm in ("stack_4_matricies", "stack_9_matricies"):
@@ -1327,17 +1368,17 @@ def build(tier):
     ctext = P.base + "Index g_p;\n" + defs + stubs + f_accessors(P) + t
     callee_note = "the seven helpers are replaced by their contracts (each proved in its own group); SymGEigsSolver, EigenSolver, LDLT, BDCSVD assumed"
     G("compute", ctext + harn["shapes"], "compute", [HDR + ":compute"], timeout=600,
-      expect=["loop_invariant_step", "assigns", "product dimensions agree", "sum/difference", "Eigen block assertion", "column index in range", "vector coefficient in range",
+      traced=True, expect=["loop_invariant_step", "assigns", "product dimensions agree", "sum/difference", "Eigen block assertion", "column index in range", "vector coefficient in range",
               "precondition of stack_9_matricies at call site", "precondition of removeColumns at call site", "precondition of checkConvergence_getBlocksize at call site",
               "DenseCholesky", "same dimension"],
       note="every Eigen assertion and every callee precondition of compute(), the loop contract of the iteration (unbounded), the class invariant at every exit; " + callee_note)
-    G("compute.inner_solver_ctor", ctext + harn["inner_ctor"], "compute", [HDR + ":compute"], timeout=600, defines=["NO_EIG_ASSERT", "CHECK_INNER_CTOR"],
+    G("compute.inner_solver_ctor", ctext + harn["inner_ctor"], "compute", [HDR + ":compute"], timeout=600, defines=["NO_EIG_ASSERT", "CHECK_INNER_CTOR"], traced=True,
       expect=["loop_invariant_step", "precondition of the SymGEigsSolver constructor"],
       note="same text; decides ONLY the precondition of the SymGEigsSolver constructor at its call site (the Eigen assertions are discharged in lobpcg.compute)")
-    G("compute.status", ctext + harn["status"], "compute", [HDR + ":compute"], timeout=600, defines=["NO_EIG_ASSERT"], expect=["loop_invariant_step", "status protocol"],
+    G("compute.status", ctext + harn["status"], "compute", [HDR + ":compute"], timeout=600, defines=["NO_EIG_ASSERT"], expect=["loop_invariant_step", "status protocol"], traced=True,
       note="same text; decides ONLY the status protocol, from an arbitrary prior m_info (object reuse)")
     G("compute.accessors", ctext + harn["accessors"], "compute", [HDR + ":compute", HDR + ":eigenvalues", HDR + ":eigenvectors", HDR + ":residuals"], timeout=600,
-      defines=["NO_EIG_ASSERT"], expect=["loop_invariant_step", "eigenvectors() is n x k", "eigenvalues() has k entries"],
+      defines=["NO_EIG_ASSERT"], expect=["loop_invariant_step", "eigenvectors() is n x k", "eigenvalues() has k entries"], traced=True,
       note="same text; the three accessors (extracted) are called on the exit state of compute()")
     meta = {"level": "proof", "trusted_base": ["cbmc 6.11.0 dfcc", "cadical", "extractor + generic shape evaluator (props/C17.py)"],
             "assumptions": ASSUMPTIONS, "not_covered": NOT_COVERED, "extraction": report,
@@ -1356,7 +1397,9 @@ def replay(g, o, assigns, path):
         mode = 1
     else:
         mode = 4
-    return RP.run_native(PROP, RP.src("C17_lobpcg_replay.cpp"), args=[mode], cxxflags="-O1 -std=c++11", name="replay%d" % mode)
+    res = RP.run_native(PROP, RP.src("C17_lobpcg_replay.cpp"), args=[mode], cxxflags="-O1 -std=c++11", name="replay%d" % mode)
+    res["verifier_counterexample"] = stored_trace(PROP, g, o)     # the runner does not re-run cbmc for a TracedGroup: the trace of the group's own run is kept here
+    return res
 
 
 MANIFEST = {
